@@ -330,4 +330,4 @@ def check_case(case):
     return r
 
 
-PARTS = [Part("wavelet", check_case, {"quick": 8000, "thorough": 120000}, strategy=st_case)]
+PARTS = [Part("wavelet", check_case, {"quick": 6000, "thorough": 100000}, strategy=st_case)]
